@@ -287,10 +287,7 @@ func (e *Expression) evaluate(res fhir.Resource, options ...fhirpath.EvaluateOpt
 // resource itself, as opposed to a copy decoded from a packed contained resource.
 func ownElements(res fhir.Resource, collection system.Collection) bool {
 	root := res.ProtoReflect()
-	contained := root.Descriptor().Fields().ByName("contained")
-	if contained == nil || !contained.IsList() || root.Get(contained).List().Len() == 0 {
-		return true // nothing is packed: every element the path can reach belongs to the resource
-	}
+	packed := false // a packed (contained) resource occurs somewhere in the tree, e.g. inside a Bundle entry
 	wanted := map[protoreflect.Message]bool{}
 	for _, item := range collection {
 		if msg, ok := item.(proto.Message); ok && msg != nil {
@@ -301,11 +298,11 @@ func ownElements(res fhir.Resource, collection system.Collection) bool {
 	walk = func(m protoreflect.Message) {
 		delete(wanted, m)
 		m.Range(func(fd protoreflect.FieldDescriptor, v protoreflect.Value) bool {
-			if len(wanted) == 0 {
-				return false
-			}
 			if fd.Message() == nil || fd.IsMap() {
 				return true
+			}
+			if fd.Message().FullName() == "google.protobuf.Any" && (!fd.IsList() || v.List().Len() > 0) {
+				packed = true
 			}
 			if fd.IsList() {
 				for i := 0; i < v.List().Len(); i++ {
@@ -318,7 +315,9 @@ func ownElements(res fhir.Resource, collection system.Collection) bool {
 		})
 	}
 	walk(root)
-	return len(wanted) == 0
+	// nothing is packed: whatever else the path yielded (e.g. the synthesised
+	// Reference.reference string) is left to the operation's own checks
+	return len(wanted) == 0 || !packed
 }
 
 func (e *Expression) isSingletonOneof(msg proto.Message) bool {
